@@ -902,6 +902,8 @@ def compare_model(ctx, case, got, r):
         return "skip:ambiguous"
     if "cmp_margin" in r and rparse(r["cmp_margin"]) < Fraction(1, 10 ** 6) and not (r.get("cmp_exact") and case.get("exact_ok")):
         return "skip:ambiguous"
+    if got.get("t") == "num" and isinstance(got.get("v"), float) and got["v"] != got["v"] and r.get("error") == "typeError":
+        return "skip:complex"   # numpy scalar: negative ** fractional is nan instead of a complex number
     if got.get("t") == "complex":
         # number ** number with a negative base and a fractional exponent is a complex number in plain Python: no quantity involved
         return "skip:complex" if r.get("error") == "typeError" else "kind"
